@@ -633,7 +633,7 @@ func TestKeystore(t *testing.T) {
 		return
 	}
 	r := rand.New(rand.NewSource(e.Seed))
-	nPlain, nReset, perReset := 400, 120, 12
+	nPlain, nReset, perReset := 1500, 300, 25
 	if e.Tier == "thorough" {
 		nPlain, nReset, perReset = 6000, 1500, 60
 	}
